@@ -367,6 +367,11 @@ def run_jobs(jobs, ncpu, repo, wall_s, stop_on_violation=True):
             os.makedirs(os.path.join(d, LOGS), exist_ok=True)
             apath = os.path.join(d, LOGS, 'job%03d.json' % group)
             lpath = os.path.join(d, LOGS, 'job%03d.log' % group)
+            if isinstance(args, dict) and 'deadline_s' in args:
+                # a group started late (more groups than processors, a loaded machine) stops generating in time for the
+                # batch as a whole: fewer runs, reported as such, never a killed worker
+                grace = min(240.0, 0.3 * wall_s)
+                args['deadline_s'] = max(2.0, min(float(args['deadline_s']), t_kill - time.monotonic() - grace))
             with open(apath, 'w') as f:
                 json.dump(args, f)
             p = subprocess.Popen(_no_aslr() + [PY, '-m', 'simlab.worker', 'batch', apath],
